@@ -34,7 +34,8 @@ import (
 //   × empty interceptor registry | default interceptors (NACK/RTX, TWCC, reports)
 //   + usually a data channel in the same bundle.
 // Every written packet has a random payload of 1–1100 bytes that starts with (track index, packet number), a random
-// marker, a garbage caller-side SSRC/payload type, increasing sequence numbers and timestamps.
+// marker, a garbage caller-side SSRC/payload type, increasing sequence numbers and timestamps, and a header of the
+// shape class drawn for its track (c23_hdr_test.go: extension block in one of three forms, CSRC list, both, neither).
 //
 // Oracle (nothing of it is computed with webrtc's SDP code): the sender's own local description is read with
 // kit.ParseSDP: the section that carries the track's msid announces the SSRC (the a=ssrc id that is not the second
@@ -153,6 +154,8 @@ type c23Track struct {
 
 	seq0    uint16
 	written [][]byte
+	shape   int       // header shape class of the written packets (c23_hdr_test.go)
+	hdr     c23HdrCtx // negotiated extension ids of the track's section
 
 	// expectations read from the descriptions
 	mid        string
@@ -175,7 +178,7 @@ func (t *c23Track) String() string {
 		capab = "bare"
 	}
 
-	return fmt.Sprintf("#%d side=%d %s(%s) msid=%q %q", t.idx, t.side, t.codec.name, capab, t.streamID, t.id)
+	return fmt.Sprintf("#%d side=%d %s(%s) hdr=%s msid=%q %q", t.idx, t.side, t.codec.name, capab, c23ShapeNames[t.shape], t.streamID, t.id)
 }
 
 type c23Remote struct {
@@ -220,7 +223,7 @@ func (t *c23Tap) BindLocalStream(_ *interceptor.StreamInfo, w interceptor.RTPWri
 }
 
 // c23NewPC is rigNewPC with the tap in front of (and optionally the default interceptors behind) the SRTP writer.
-func c23NewPC(me *MediaEngine, defaults bool, tap *c23Tap) (*PeerConnection, error) {
+func c23NewPC(me *MediaEngine, defaults, twccHdr bool, tap *c23Tap) (*PeerConnection, error) {
 	se := rigSettingEngine()
 	if me == nil {
 		me = &MediaEngine{}
@@ -232,6 +235,11 @@ func c23NewPC(me *MediaEngine, defaults bool, tap *c23Tap) (*PeerConnection, err
 	reg.Add(tap)
 	if defaults {
 		if err := RegisterDefaultInterceptorsWithOptions(me, reg, WithInterceptorLoggerFactory(se.LoggerFactory)); err != nil {
+			return nil, err
+		}
+	}
+	if twccHdr { // the sender's chain itself adds a header extension (transport-wide sequence number) to every packet
+		if err := ConfigureTWCCHeaderExtensionSender(me, reg); err != nil {
 			return nil, err
 		}
 	}
@@ -479,6 +487,7 @@ func c23Run(run *kit.Run, i int, cfg c23Cfg, nPackets int) { //nolint:gocognit,c
 				break
 			}
 		}
+		t.shape = c23DrawShape(r)
 		t.seq0 = uint16(r.Intn(65536))
 		if r.Chance(0.2) {
 			t.seq0 = uint16(65536 - r.Range(1, nPackets)) // the sequence number wraps during the run
@@ -500,22 +509,23 @@ func c23Run(run *kit.Run, i int, cfg c23Cfg, nPackets int) { //nolint:gocognit,c
 	withDC := r.Chance(0.85)
 	dcFirst := r.Bool()
 	bEarly := r.Bool()
+	twccHdr := cfg.interceptors && r.Chance(0.3)
 	var layout []string
 	for _, t := range cs.tracks {
 		layout = append(layout, t.String())
 	}
-	cs.desc = fmt.Sprintf("%s dc=%v dcFirst=%v answererAddsBeforeOffer=%v A{%s} B{%s} tracks=[%s]",
-		cfg, withDC, dcFirst, bEarly, meADesc, meBDesc, strings.Join(layout, "; "))
+	cs.desc = fmt.Sprintf("%s dc=%v dcFirst=%v answererAddsBeforeOffer=%v twccHeaderExtensionSender=%v A{%s} B{%s} tracks=[%s]",
+		cfg, withDC, dcFirst, bEarly, twccHdr, meADesc, meBDesc, strings.Join(layout, "; "))
 
 	// ---- peers
 	taps := []*c23Tap{{}, {}}
-	pcA, err := c23NewPC(meA, cfg.interceptors, taps[0])
+	pcA, err := c23NewPC(meA, cfg.interceptors, twccHdr, taps[0])
 	if err != nil {
 		run.Inconclusive("peerconnection-setup")
 
 		return
 	}
-	pcB, err := c23NewPC(meB, cfg.interceptors, taps[1])
+	pcB, err := c23NewPC(meB, cfg.interceptors, twccHdr, taps[1])
 	if err != nil {
 		rigClose(pcA)
 		run.Inconclusive("peerconnection-setup")
@@ -718,6 +728,7 @@ func c23Run(run *kit.Run, i int, cfg c23Cfg, nPackets int) { //nolint:gocognit,c
 
 			return
 		}
+		t.hdr = c23NewHdrCtx(c23SectionByMid(answerSDP, t.mid), t.mid, twccHdr)
 		// the sender's own view (public API), recorded only: the statement is about what the descriptions say
 		params := t.sender.GetParameters()
 		if len(params.Codecs) > 0 {
@@ -765,6 +776,11 @@ func c23Run(run *kit.Run, i int, cfg c23Cfg, nPackets int) { //nolint:gocognit,c
 					Timestamp: ts[k], SSRC: r.Uint32(),
 				},
 				Payload: append([]byte(nil), payload...),
+			}
+			class, profile := c23ShapeHeader(r, t.shape, t.hdr, &pkt.Header)
+			run.Count("packets_written:"+class, 1)
+			if profile != "" {
+				run.Seen("header_extension_profile_written", profile)
 			}
 			if err := t.local.WriteRTP(pkt); err != nil {
 				run.Count("write_errors", 1)
@@ -896,6 +912,12 @@ func c23Run(run *kit.Run, i int, cfg c23Cfg, nPackets int) { //nolint:gocognit,c
 	run.Seen("tracks_in_bundle", strconv.Itoa(cfg.ntracks))
 	run.Seen("sender_side", map[bool]string{false: "offerer", true: "answerer"}[cfg.senderAnswers])
 	run.Seen("interceptors", strconv.FormatBool(cfg.interceptors))
+	if twccHdr {
+		run.Count("cases_with_twcc_header_extension_sender", 1)
+	}
+	for _, t := range cs.tracks {
+		run.Seen("track_header_shape", c23ShapeNames[t.shape])
+	}
 	if withDC {
 		run.Count("cases_with_datachannel", 1)
 		run.Count("datachannel_messages_received", int(dcGot.Load()))
@@ -976,6 +998,7 @@ func c23Judge(cs *c23Case, t *c23Track, rec *c23Remote) { //nolint:gocognit,cycl
 			run.Seen("divergence", "payload-intact-but-sequence-number-changed")
 		}
 		t.got[n]++
+		run.Count("packets_verified:"+c23HeaderClass(p.Extension, len(p.CSRC)), 1)
 		if p.SSRC != t.ssrc {
 			cs.violation("ssrc-mismatch", t, fmt.Sprintf("packet %d read from the TrackRemote has Header.SSRC %d, the sender's description announces %d", n, p.SSRC, t.ssrc),
 				map[string]any{"packet": n, "header_ssrc": p.SSRC, "announced": t.ssrc, "announced_rtx": t.rtxSSRC})
@@ -1083,9 +1106,14 @@ func TestVerifC23(t *testing.T) {
 	run := kit.Start(t, "C23", "one case = one loopback pair configuration: primary codec {opus,VP8,VP9,H264,AV1} x media engine "+
 		"{default+rtx, custom primaries, custom primaries with per-peer payload types, custom+rtx with per-peer payload types} x 1-4 tracks "+
 		"(+ data channel) x primary sender = offerer|answerer x interceptors off|default; the 64 non-codec combinations are permuted by the seed, "+
-		"codecs cycle over them (quick: 128 configurations; thorough: all 320, three times with different layouts and payload-type draws); per track 50 (thorough 300) packets with random 1-1100 byte payloads tagged (track, n). "+
+		"codecs cycle over them (quick: 128 configurations; thorough: all 320, three times with different layouts and payload-type draws); per track 50 (thorough 300) packets with random 1-1100 byte payloads tagged (track, n); "+
+		"every track draws a header shape for its written packets (plain | RFC 8285 one-byte / two-byte extension block with negotiated and free-form elements | RFC 3550 block | CSRC list | both | mixed per packet) "+
+		"and cases with interceptors sometimes add the transport-cc header-extension sender. "+
 		"A case is non-trivial when every written track produced a TrackRemote at the other peer and at least 95% of its packets were read "+
-		"back and compared byte for byte; distinct = distinct configuration + track layout")
+		"back and compared byte for byte; distinct = distinct configuration + track layout. "+
+		"Lossy part (quick 16 / thorough 160 vnet pairs, default interceptors, 400 packets per track): 1-2 video tracks {VP8,VP9,H264,AV1} x sender side x header shape x "+
+		"transport-cc header-extension sender on|off x loss pattern {runs of 2-3, periodic single, independent 4-12%, random runs}; first transmissions of the chosen packets are dropped so they "+
+		"arrive only as RTX retransmissions; every packet read must be a written (sequence number, payload) pair with the announced SSRC and a negotiated payload type; non-trivial when at least 2 retransmissions were read")
 	defer run.Finish()
 	run.Assume("loopback UDP may drop packets: up to 5% missing per track is tolerated (counted), more makes the case inconclusive")
 	run.Assume("H264/VP9 on the default engine are registered under several payload types: any payload type the applied answer maps to the track's codec name/clock/channels is accepted; the custom engines register one payload type per codec, there the check is exact")
@@ -1110,5 +1138,5 @@ func TestVerifC23(t *testing.T) {
 		c23Run(run, i, cfg, nPackets)
 	})
 	// lossy part (c23_loss_test.go): the same oracle when packets are lost in bursts and return as RTX retransmissions
-	c23Lossy(run, n, kit.N(6, 60))
+	c23Lossy(run, n, kit.N(16, 160))
 }
